@@ -99,8 +99,15 @@ def search(payload):
         if rnd.random() < 0.2:
             nodes[rnd.randrange(n)] = [nodes[0][1]] * 3
         cases.append((nodes, rnd.choice([0.05, 0.3, 1, 4, 1.55, 0.77, 2.1])))
-    for nodes, flat in cases:
+    for k, (nodes, flat) in enumerate(cases):
         tried += 1
+        if k % 5 == 0:
+            # call history in one process: the same curve was subdivided with a coarser flatness just before
+            import copy
+            try:
+                pu.subdivideCubicPath([[list(map(float, pt)) for pt in nd] for nd in copy.deepcopy(nodes)], max(8 * flat, 4.0))
+            except Exception:    # noqa
+                pass
         o, e = check(nodes, flat)
         if o:
             return {'found': True, 'input': [nodes, flat], 'observed': o, 'expected': e, 'tried': tried}
